@@ -123,9 +123,19 @@ impl LengthDelimitedCodec {
 
     /// # Errors
     ///
-    /// Returns `MessageTooLarge` if the frame (flags + payload) exceeds the max frame length.
+    /// Returns `MessageTooLarge` if the serialized message or the frame (flags + payload)
+    /// exceeds the max frame length.
     pub fn encode_v2(&self, msg: &Message) -> TcpResult<Vec<u8>> {
         let serialized = bitcode::serialize(msg)?;
+
+        // The receiving side applies the limit to the decompressed message as well:
+        // refuse here what decode_payload_v2 would refuse there.
+        if serialized.len() > self.max_frame_length {
+            return Err(TcpError::MessageTooLarge {
+                size: serialized.len(),
+                max_size: self.max_frame_length,
+            });
+        }
 
         let (payload, flags) =
             if self.compress_enabled && serialized.len() >= self.compression.min_size {
